@@ -121,14 +121,26 @@ int main(void)
                     if (pc == 0) memset(payload_buf, 0xff, L + 4);
                     else if (pc == 1) memset(payload_buf, 0x00, L + 4);
                     else vp_rng_fill(&c->rng, payload_buf, L + 4);
-                    for (int placement = 0; placement < (judged ? 2 : 1); placement++) {
+                    for (int placement = 0; placement < (judged ? 3 : 1); placement++) {
                         uint8_t* p; uint8_t* s; uint8_t* heap = 0; uint8_t* src;
+                        if (placement == 2 && (k % 7) != 3) continue;
                         uint8_t shadow_local[2100];
                         uint32_t total = H + L + pad;
                         uint32_t skk = (k & 1) ? ((g_place + H) & 7u) : ((k >> 1) & 7u);      /* start residue of the source: the payload's own in half of the cases */
-                        src = vp_heap(L + skk) + skk;                       /* exact-extent source: over-reads trap under ASan */
+                        src = vp_heap(L + skk) + skk;
+                        uint8_t* srcblk = src - skk;                       /* exact-extent source: over-reads trap under ASan */
                         memcpy(src, payload_buf, L);
-                        if (placement == 0) {
+                        if (placement == 2) {
+                            /* the source exactly 64 KiB or 128 KiB behind the place it is copied to (buffer pools with a power-of-two
+                             * stride): distances computed in a narrow type would see "already in place" */
+                            static uint8_t* far;
+                            if (!far) far = vp_map(4 * 65536);
+                            p = far + 1024 + g_place; s = shadow_local;
+                            src = p + H + 65536 * (1 + (k & 1));
+                            memcpy(src, payload_buf, L);
+                            vp_rng_fill(&c->rng, p, total + 8);
+                            memcpy(s, p, total);
+                        } else if (placement == 0) {
                             vp_arena_fill(&a, &c->rng);
                             p = a.mem + PDU_BASE + g_place; s = a.shadow + PDU_BASE + g_place;
                             vp_rng_fill(&c->rng, p, total + 8);     /* prior message bytes independent of the placement */
@@ -222,7 +234,7 @@ int main(void)
                                 }
                             }
                         }
-                        vp_heap_free(src - skk);
+                        vp_heap_free(srcblk);
                         if (heap) vp_heap_free(heap);
                     }
                 }
